@@ -63,6 +63,8 @@ pub fn format_err(
         .as_ref()
         .map_or("<unknown>", |p| p.to_str().unwrap_or_default());
 
+    // A position which is not visible in the source is not printed
+    let pos = pos.filter(|pos| *pos != Position::invisible());
     if let Some(pos) = pos {
         writeln!(
             f,
@@ -84,7 +86,7 @@ pub fn format_err(
     let mut first = true;
     for cause in causes {
         let msg = cause.msg.as_str();
-        if first && pos.map_or(false, |pos| pos != cause.pos) {
+        if first && pos.map_or(true, |pos| pos != cause.pos) {
             format_location(f, 1, Some(msg), cause.pos, source)?;
         } else {
             let offset_str = String::from_utf8(vec![b' '; OFFSET_WIDTH]).unwrap();
